@@ -125,6 +125,7 @@ def extract_columns(T, names):
 
 
 LAYOUTS = ["contig", "strided", "reversed", "offset-view", "readonly"]
+LAYOUTS_ND = ["2d(2,k)", "2d(k,1)", "2d(1,k)", "3d(2,1,k)"]
 
 
 def relayout(a, layout):
@@ -149,6 +150,15 @@ def relayout(a, layout):
         r = a.copy()
         r.flags.writeable = False
         return r
+    # a table handed over as an n-d array of records: it is written record by record in C order (one row each)
+    if layout == "2d(2,k)":
+        return a.copy().reshape(2, n // 2) if n % 2 == 0 else a.copy().reshape(1, n)
+    if layout == "2d(k,1)":
+        return a.copy().reshape(n, 1)
+    if layout == "2d(1,k)":
+        return a.copy().reshape(1, n)
+    if layout == "3d(2,1,k)":
+        return a.copy().reshape(2, 1, n // 2) if n % 2 == 0 else a.copy().reshape(1, 1, n)
     raise ValueError(layout)
 
 
